@@ -396,6 +396,11 @@ func genNoise(r *R) []HV {
 	for _, hv := range subset(r, noiseVocab, 0.12) {
 		out = append(out, HV{hv.K, []string{pick(r, hv.V)}})
 	}
+	if t, ok := dictStr(r, dict.tokens, 0.15); ok && !strings.EqualFold(t, hOrigin) && !strings.EqualFold(t, hACRM) {
+		// a literal of the tree under test as a header name (in the form net/http delivers), with a mined value
+		v, _ := dictStr(r, dict.any, 1)
+		out = append(out, HV{http.CanonicalHeaderKey(t), []string{v}})
+	}
 	if len(out) == 0 {
 		hv := pick(r, noiseVocab)
 		out = append(out, HV{hv.K, []string{pick(r, hv.V)}})
